@@ -646,7 +646,19 @@ func (m *Manager) persistState() error {
 		return err
 	}
 
-	return os.WriteFile(m.stateFile, data, 0600)
+	// Write to a temporary file and rename it into place: an in-place
+	// WriteFile truncates first, so a crash between the truncate and the
+	// write would leave an empty (unparsable) state file and the agent would
+	// restart awake although it was sleeping.
+	tempPath := m.stateFile + ".tmp"
+	if err := os.WriteFile(tempPath, data, 0600); err != nil {
+		return err
+	}
+	if err := os.Rename(tempPath, m.stateFile); err != nil {
+		os.Remove(tempPath)
+		return err
+	}
+	return nil
 }
 
 // LoadState loads persisted state from disk.
